@@ -98,12 +98,14 @@ delays at the gates); sequential ages × 6 behaviours × both stores incl. a SEC
 refresh tokens but returns no id_token on refresh. ≈2.5 k evaluations / 2.3 k distinct interleavings quick (≈35 s idle).
 The oauth2 library retries a failed refresh grant with the other client-auth style, so failing grants appear twice in the
 log (counts are only asserted for successful refreshes). 6/6 own mutants caught.
-Round 2 added: a scheduled sign-out-versus-refresh scenario (all interleavings of one stale request and one sign-out on two replicas, rotating and non-rotating provider: `c12:session-resurrected-after-concurrent-sign-out`) and a provider without refresh support re-validating at its validation URL (429 / 5xx / stall answers).""",
+Round 2 added: a scheduled sign-out-versus-refresh scenario (all interleavings of one stale request and one sign-out on two replicas, rotating and non-rotating provider: `c12:session-resurrected-after-concurrent-sign-out`) and a provider without refresh support re-validating at its validation URL (429 / 5xx / stall answers).
+Round 3 added: the first two stress rounds of every universe run against a provider whose refresh endpoint answers after 1.25 s / 1.75 s — inside the refresh lock's 2 s, so the property's proviso holds and exactly one refresh with everybody served is still required.""",
 "C13": """*As built* (`harness/c13_storefaults.go`). 10 scenarios × (positions 1…n+1) × 17 fault kinds, each with go-redis retries
 off (crisp per-operation rules) and on (retry-agnostic invariants only); 12 parallel cells (own miniredis + hub + 2
 instances each); thorough adds all ordered pairs × 5 kinds. A cookie counts as "handed out" only if it is still in the jar
 after the WHOLE response was applied. corrupt/truncate apply to bulk replies (GET) only. ≈980 runs / 300 cells quick
-(≈15 s), 2.8 k thorough (≈50 s). Found: F3 (fixed). 6/6 own mutants caught.""",
+(≈15 s), 2.8 k thorough (≈50 s). Found: F3 (fixed). 6/6 own mutants caught.
+Round 3 added: a hung-store readiness phase — an instance with second-scale client timeouts (read timeout 2.5 s, as a real deployment) whose PING is answered only after 3.5 s, probed over the direct and the wire driver by a patient prober: anything but not-ready is `c13:ready-while-store-unreachable`.""",
 "C14": """*As built* (`harness/c14_idpfaults.go`). 8 / 16 parallel worlds; flows login-newkid, login-profile, login-thin,
 bearer-newkid, bearer-extra-issuer-typed-claims, refresh, refresh-thin, refresh with expired old ID token, start-up
 discovery; 25 structural kinds + tolerated oddities at every call position, 45 wrongly typed claims; every case followed by a
@@ -124,7 +126,8 @@ with it); a network set of nested prefixes sharing their base address (narrower 
 network set also configured in reverse order; reverse-proxy mode with a client-IP header whose first element is not an address,
 sent from a peer INSIDE a configured network (the peer's address must not be used instead). ≈225 k evaluations / 4.3 k cells
 quick (≈30 s idle). Reverse-proxy mode without the client-IP header (unchanged tree: no exemption) is recorded, not judged.
-Found: F1 (fixed).""",
+Found: F1 (fixed).
+Round 3 added: peers WITHOUT an IP address (`@` as net/http reports a unix-socket peer, `unix`, `:80`, garbage) against every network set incl. a loopback set and 0.0.0.0/0 (`c15:addressless-peer-exempted`); a legacy rule set whose expressions contain `=` and `!=`. ≈254 k evaluations / 4.9 k cells quick.""",
 "C16": """*As built* (`harness/c16_forwarding.go`). 9 configurations × 27 base requests × 64 header subsets × 3 (quick) / 6 value
 sets; every base request is first executed twice (determinism guard: differing identical executions are inconclusive, not
 violations); one configuration over the wire driver, `--force-https` over the TLS wire driver (req.TLS ≠ nil). With
@@ -160,7 +163,8 @@ the provider answers after 120 ms — stale session (refresh / re-validation at 
 `--backend-logout-url`, bearer, form sign-in; phase 6 the configuration space — 63 options × value pools (unusual spellings,
 boundary values: 388 single-option configurations) plus 120 / 1500 seeded combinations; every configuration that passes
 validation (≈85 %) serves a smoke set of ≈50 requests including a complete login over http and "https". Found: F2 and two
-CSRF-cookie panics (fixed).""",
+CSRF-cookie panics (fixed).
+Round 3 added separator-only and unparseable values to the forwarding-header pools.""",
 "C20": """*As built* (`harness_basic/c20_basic.go` in package basic, `harness/c20_reload.go`). Basic half: 10 (quick) / 100
 histories of one reloader + 2–16 validators checked with porcupine (every fifth history with a bcrypt entry and ≤ 3
 validators — slow validations overlap several reloads and porcupine's search grows steeply), 6 / 60 rounds of two overlapping
@@ -172,7 +176,8 @@ judged on the final state only (a half-written file may legitimately be read). R
 replacement written 0.2–3 s later (quick: 1.5 s, first round) — the replacement AND the version after it must come into force;
 a progress monitor in both halves (2000 heartbeats of a goroutine of the same process, ≥ 20 s of it being scheduled, without a
 single completed validation or reload while both are running ⇒ `c20:validators-and-reload-block-each-other` with a goroutine
-dump, instead of a hang). ≈115 k validations quick (≈45 s). Found: F5 (fixed). 7/7 own mutants caught.""",
+dump, instead of a hang). ≈115 k validations quick (≈45 s). Found: F5 (fixed). 7/7 own mutants caught.
+Round 3 added: every other atomic replacement arrives with an mtime OLDER than or equal to the file it replaces (mv of a prepared copy, rsync -t); an event-storm phase on its own instance, next to the rounds — 60 000 content-preserving events per file within ≈100 ms (chmod toggles alternating with a one-byte overwrite of the first byte by itself; the kernel's inotify queue holds 16 384), then an in-place rewrite every 400 ms for 25 s (quick) / 90 s, each of which must come into force within 10 s (observed on the unchanged tree: ≤ 100 ms). Replacements by rename are deliberately not used while the queue may still be full: the kernel then drops the rename event and ANY inotify-based watcher stays on the replaced inode — observed on the unchanged tree, not a property of the watcher's code.""",
 }
 
 def main():
